@@ -148,6 +148,13 @@ class ReactionSummary(Summary):
                 | (self._flux["maximum"].abs() >= threshold),
                 :,
             ].copy()
+            if self._reaction.id not in frame.index:
+                # everything is below the threshold: display zeros instead of failing
+                zero = 0.0
+                return (
+                    f"{zero:{float_format}} "
+                    f"[{zero:{float_format}}; {zero:{float_format}}]"
+                )
             return (
                 f"{frame.at[self._reaction.id, 'flux']:{float_format}} "
                 f"[{frame.at[self._reaction.id, 'minimum']:{float_format}}; "
@@ -155,6 +162,8 @@ class ReactionSummary(Summary):
             )
         else:
             frame = self._flux.loc[self._flux["flux"].abs() >= threshold, :].copy()
+            if self._reaction.id not in frame.index:
+                return f"{0.0:{float_format}}"
             return f"{frame.at[self._reaction.id, 'flux']:{float_format}}"
 
     def to_string(
